@@ -88,3 +88,52 @@ Lemma expect_expanded {A} (ev : list (letter * wt) -> list ct -> nat -> A) nq nc
 Proof.
   intros W H. unfold expanded. rewrite map_map. apply map_ext_in. intros p Hp. apply expect_expand; auto.
 Qed.
+
+(* ---------- range statements (so that the Zero conclusions are not true by the default of [wire]) ---------- *)
+Lemma move_target_in_range nq c c1 i c2 : wf_circ nq c = true -> c = c1 ++ i :: c2 -> is_marker i = true ->
+  let p := position_after c c1 (marker_qubit i) in
+  block_start (cut_freq c) (marker_qubit i) <= p /\
+  p + 1 <= final_position c (marker_qubit i) /\
+  final_position c (marker_qubit i) < nq + count_markers c.
+Proof.
+  intros W E M p.
+  destruct (wf_circ_app nq c1 (i :: c2)) as [W1 W2]; [now rewrite <- E|].
+  apply wf_circ_cons in W2 as [Wi _]. destruct (proj2 (wf_instr_spec nq i Wi) M) as [_ Hg].
+  split; [unfold p, position_after; lia|]. split; [|now apply final_position_bound].
+  assert (F : cut_freq c (marker_qubit i) = cut_freq c1 (marker_qubit i) + (1 + cut_freq c2 (marker_qubit i))).
+  { rewrite E, cut_freq_app, cut_freq_cons, M.
+    destruct (Nat.eq_dec (marker_qubit i) (marker_qubit i)); [reflexivity|congruence]. }
+  unfold p, position_after, final_position, block_end. lia.
+Qed.
+
+Lemma move_target_full nq nc c c1 i c2 : wf_circ nq c = true -> c = c1 ++ i :: c2 -> is_marker i = true ->
+  let p := position_after c c1 (marker_qubit i) in
+  wire (denote (nq + count_markers c) nc (tcw Move (fst (structure_mapping nq c)) c1)) (p + 1) = Zero /\
+  p + 1 <= final_position c (marker_qubit i) /\
+  final_position c (marker_qubit i) < nq + count_markers c /\
+  length (hw (denote (nq + count_markers c) nc (tcw Move (fst (structure_mapping nq c)) c1))) = nq + count_markers c.
+Proof.
+  intros W E M p.
+  destruct (move_target_in_range nq c c1 i c2 W E M) as (_ & R1 & R2).
+  split; [exact (move_target_zero nq nc c c1 i c2 W E M)|]. split; [exact R1|]. split; [exact R2|].
+  unfold denote, hrun. generalize (tagc (tcw Move (fst (structure_mapping nq c)) c1)).
+  assert (G : forall l s, length (hw (fold_left hstep l s)) = length (hw s)).
+  { induction l as [|x r IH]; intros s; [reflexivity|]. cbn [fold_left]. rewrite IH. apply hstep_wlen. }
+  intros l. rewrite G. cbn. apply repeat_length.
+Qed.
+
+Lemma semantics_full_bounded nq nc c : wf_circ nq c = true ->
+  let t := denote nq nc (erase_markers c) in
+  let t' := denote (nq + count_markers c) nc (cut_wires_moves nq c) in
+  (forall q, q < nq -> final_position c q < nq + count_markers c /\ wire t' (final_position c q) = wire t q) /\
+  (forall j, (forall q, q < nq -> j <> final_position c q) -> wire t' j = Zero) /\
+  hc t' = hc t.
+Proof.
+  intros W. destruct (semantics_full nq nc c W) as (A & B & C). cbn zeta.
+  split; [|split; assumption]. intros q Hq. split; [now apply final_position_bound|now apply A].
+Qed.
+
+Lemma expand_new_qubits_wf nq c ps : wf_circ nq c = true -> (forall p, In p ps -> length (plets p) = nq) ->
+  expand nq (seq 0 nq) (new_qubits nq c) ps =
+  Ok (map (expand1 (map (final_position c) (seq 0 nq)) (nq + count_markers c)) ps).
+Proof. intros W _. now apply expand_new_qubits. Qed.
